@@ -490,6 +490,17 @@ func (b *Broker) offsetFetch(req *Request) Reply {
 	if req.Version >= 3 {
 		w.I32(0)
 	}
+	if c.OffsetFetchOrder == "reverse" {
+		// a coordinator need not answer in the order of the request (it may build the answer from its own tables)
+		for i, j := 0, len(qs)-1; i < j; i, j = i+1, j-1 {
+			qs[i], qs[j] = qs[j], qs[i]
+		}
+		for _, t := range qs {
+			for i, j := 0, len(t.parts)-1; i < j; i, j = i+1, j-1 {
+				t.parts[i], t.parts[j] = t.parts[j], t.parts[i]
+			}
+		}
+	}
 	w.ArrayLen(len(qs))
 	for _, t := range qs {
 		w.Str(t.name)
